@@ -1635,8 +1635,9 @@ func callBin(n *node) {
 		variadic = funcType.NumIn() - 1
 	}
 	// A method signature obtained from reflect.Type includes receiver as 1st arg, except for interface types.
+	// The signature of a method value, held by a variable, never includes it.
 	rcvrOffset := 0
-	if recv := c0.recv; recv != nil && !isInterface(recv.node.typ) {
+	if recv := c0.recv; recv != nil && c0.action == aGetMethod && !isInterface(recv.node.typ) {
 		if variadic > 0 || funcType.NumIn() > len(child) {
 			rcvrOffset = 1
 		}
